@@ -9,7 +9,7 @@ import contracts as C
 import contracts_async as CA
 from specs.codec import run_async, _ok_payload, _is_err_concrete
 
-BENIGN = re.compile(r'Clone>::clone|Deref|format|Debug|Display|err_msg|context|with_context|drop|Instant|elapsed|GenericCounter|inc_by|thread_rng|rand')
+BENIGN = re.compile(r'Clone>::clone|Deref|format|Debug|Display|err_msg|drop|Instant|elapsed|GenericCounter|inc_by|thread_rng|rand|SystemTime')
 
 
 def spec_copy_half_stream(ck, max_turns=2):
@@ -21,6 +21,7 @@ def spec_copy_half_stream(ck, max_turns=2):
     stf = ck.si.structs.get('ContextStatistics', ['read_bytes', 'read_frames', 'last_read'])
     ex = ck.engine(loop_bound=max_turns + 2, call_depth=12)
     ex.benign_havoc = BENIGN
+    ex.havoc_result_ok = True      # SystemTime::now().duration_since(UNIX_EPOCH): the clock is not before 1970
     ex.max_paths = 400
     st = State()
     bufsz = z3.BitVec('buffer_size', 64)
@@ -43,3 +44,180 @@ def spec_copy_half_stream(ck, max_turns=2):
     ex.inputs = {'buffer_size': bufsz, 'sent_by_source': inp, 'bytes_counted_before': count0}
     outs = run_async(ex, st, fn, [Ref(st.alloc(params), ()), src, dst, Ref(stat_cell, ()), Opaque('GenericCounter', 'metric')])
     return ex, outs, dict(inp=inp, src_cell=src_cell, dst_cell=dst_cell, stat_cell=stat_cell, count0=count0, stf=stf)
+
+
+def _stream(o, cell):
+    v = o.mem[cell]
+    return v
+
+
+def check_copy_half(ck, max_turns=2):
+    """one direction of a TCP tunnel in buffered mode (no splice): whatever the source delivers, in whatever pieces, the
+    destination is written exactly those bytes in that order, flushed; the byte counter advances by exactly that amount; end of
+    stream is passed on (shutdown of the destination's write side) only after everything read has been written"""
+    from specs.fragment import prove_bytes_eq
+    r = spec_copy_half_stream(ck, max_turns)
+    if r is None:
+        return
+    ex, outs, m = r
+    inp = m['inp']
+    reached = 0
+    for o, res in outs:
+        if o.status != 'returned' or res is None:
+            continue
+        src, dst = o.mem[m['src_cell']], o.mem[m['dst_cell']]
+        stat = o.mem[m['stat_cell']]
+        counted = stat.fields[m['stf'].index('read_bytes')].fields[0].t
+        ok, _ = _ok_payload(res)
+        reached += 1
+        # written == consumed prefix of the input, byte for byte
+        prove_bytes_eq(ex, o, 'C01/relay/destination-receives-exactly-the-bytes-read-in-order', dst.out, inp.slice(BV(0, 64), src.pos))
+        ex.prove(o, 'C01/relay/everything-written-is-flushed', dst.flushed == dst.out.len)
+        ex.prove(o, 'C16/relay/byte-counter-advances-by-the-bytes-relayed', counted == m['count0'] + dst.out.len)
+        ex.prove(o, 'C04/relay/finishes-only-at-end-of-stream-with-everything-delivered', z3.Implies(ok, z3.And(src.pos == inp.len, dst.out.len == inp.len)))
+        ex.prove(o, 'C04/relay/end-of-stream-is-passed-on-after-the-data', z3.Implies(ok, z3.BoolVal(bool(dst.closed))))
+        evs = [e[0] for e in o.trace]
+        if 'shutdown' in evs:
+            ex.prove(o, 'C04/relay/no-write-after-shutdown', 'write' not in evs[evs.index('shutdown'):])
+    if not reached:
+        ck.add('C01/relay/reachability', 'vacuous', 'no path through copy_half returned')
+    for f in ex.findings:
+        if not hasattr(f, 'target'):
+            f.target = 'copy_half'
+    ck.absorb(ex, 'copy_half (buffered stream arm)', [o for o, _ in outs])
+    ck.bounds['copy_half'] = ('buffered (non-splice) arm of copy_half, source stream of <= 6 bytes delivered in <= %d pieces then end of stream, buffer size 1..8; '
+                              'tokio::select! executed for real (poll_fn closure, random start, disabled mask); frame and splice arms disabled by the state' % max_turns)
+
+
+def relay_replay_plan(ob):
+    f = ob.finding
+    if f is not None and ob.label.startswith('C01/handover/'):
+        return 'relay', {'driver': 'handover', 'args': {}}, lambda o: o.get('handover_complete') is False
+    if f is None or (ob.target or '') != 'copy_half':
+        return None
+    i = f.inputs
+    src = (i.get('sent_by_source') or {}).get('hex', '')
+    n = len(src) // 2
+    base = {'source': src, 'buffer_size': int(i.get('buffer_size', 8)) or 1, 'counted_before': int(i.get('bytes_counted_before', 0)) % (1 << 40)}
+    cases = [{'driver': 'copy_half', 'args': dict(base, pieces=p)} for p in ([n], [1, max(n - 1, 0)], [1] * n, [max(n - 1, 0), 1])]
+    lab = ob.label
+    if 'destination-receives-exactly' in lab or 'finishes-only-at-end-of-stream' in lab:
+        return 'relay', cases, lambda o: o.get('delivered_equals_source') is False
+    if 'byte-counter' in lab:
+        return 'relay', cases, lambda o: o.get('counted') is not None and o.get('counted') != len(o.get('delivered', '')) // 2
+    if 'end-of-stream-is-passed-on' in lab:
+        return 'relay', cases, lambda o: o.get('ok') and o.get('destination_saw_eof') is False
+    if lab.startswith('C0') or lab.startswith('C16'):
+        return None
+    return 'relay', cases, lambda o: bool(o.get('panicked'))
+
+
+def check_handover(ck):
+    """copy_bidi before the relay starts: bytes that the handshake's BufReader already pulled off one socket (the client
+    pipelined them behind its request; the upstream sent them behind its reply) are written to the other side and flushed
+    BEFORE the buffered wrappers are taken apart -- taking them apart throws away whatever they still hold"""
+    from specs.fragment import prove_bytes_eq
+    fn = ck.find(lambda: ck.db.free('copy_bidi'), 'copy_bidi')
+    ck.find(lambda: ck.db.free('drain_buffers'), 'drain_buffers')
+    if fn is None:
+        return
+    ex = ck.engine(loop_bound=3, call_depth=8)
+    ex.benign_havoc = re.compile(r'.')
+    ex.no_inline = [re.compile(r'copy_half|Context::|SrcHalf|DstHalf|has_raw_fd|into_owned_fd')]
+    ex.havoc_result_ok = True      # fd duplication / registration with the reactor succeed (resource exhaustion is not the subject)
+    ex.max_paths = 2000
+    st = State()
+    cin = Bytes.symbolic('client_sent', 'in')
+    sin = Bytes.symbolic('server_sent', 'in')
+    ex.assume(st, z3.And(z3.ULE(cin.len, BV(4, 64)), z3.ULE(sin.len, BV(4, 64))))
+    cpos = z3.BitVec('client_bytes_consumed_by_handshake', 64)
+    spos = z3.BitVec('server_bytes_consumed_by_handshake', 64)
+    ex.assume(st, z3.And(z3.ULE(cpos, cin.len), z3.ULE(spos, sin.len)))
+    ccell = st.alloc(Stream('client', cin, pos=cpos))
+    scell = st.alloc(Stream('server', sin, pos=spos))
+
+    def take_streams(ctx):
+        ctx.st.trace.append(('take_streams',))
+        return C.mk_option(ctx.ex, Agg('(IOBufStream, IOBufStream)', {0: Ref(ccell, ()), 1: Ref(scell, ())}))
+    rawfd = z3.Bool('sockets_are_plain_tcp')
+
+    def has_raw_fd(ctx):
+        return Bool(rawfd)
+
+    def relay_starts(ctx):
+        # everything this spec is about has happened once the first copy_half is created: stop the path here
+        ctx.st.trace.append(('relay-starts',))
+        from engine import DIVERGE
+        return DIVERGE
+    for rx, f in ((r'Context::take_streams$', take_streams), (r'Context::take_frames$', lambda ctx: C.mk_option(ctx.ex, None)),
+                  (r'has_raw_fd$', has_raw_fd), (r'^copy_half::<', relay_starts)):
+        ex.overrides.append((re.compile(rx), f))
+    ex.inputs = {'client_sent': cin, 'server_sent': sin, 'client_bytes_consumed_by_handshake': cpos, 'server_bytes_consumed_by_handshake': spos}
+    ctx = Ref(st.alloc(Opaque('tokio::sync::RwLock<context::Context>', 'ctx')), ())
+    params = Ref(st.alloc(Opaque('IoParams', 'params')), ())
+    outs = run_async(ex, st, fn, [ctx, params])
+    reached = 0
+    for o, r in outs:
+        if ('relay-starts',) not in o.trace:
+            continue
+        reached += 1
+        c, s = o.mem[ccell], o.mem[scell]
+        lost = dict((e[1], e) for e in o.trace if e[0] == 'read-ahead-discarded')
+        for name, me, peer, inp, pos0 in (('client', c, s, cin, cpos), ('server', s, c, sin, spos)):
+            e = lost.get(name)
+            if e is None:
+                # the reader was not taken apart on this path: nothing may have been lost
+                continue
+            k = e[2]
+            prove_bytes_eq(ex, o, 'C01/handover/bytes-buffered-during-the-handshake-are-forwarded-before-the-relay-starts', peer.out, inp.slice(pos0, k))
+            ex.prove(o, 'C01/handover/forwarded-bytes-are-flushed-before-the-writer-is-taken-apart', peer.flushed == peer.out.len)
+        for e in o.trace:
+            if e[0] == 'write-buffer-discarded':
+                ex.prove(o, 'C01/handover/no-unflushed-bytes-are-dropped-with-the-buffered-writer', e[2] == BV(0, 64))
+    if not reached:
+        ck.add('C01/handover/reachability', 'vacuous', 'copy_bidi never reached the start of the relay in the model')
+    ck.absorb(ex, 'copy_bidi (hand-over)', [o for o, _ in outs])
+    ck.bounds['handover'] = 'copy_bidi up to the first copy_half; each side sent <= 4 bytes of which the handshake consumed any prefix and the BufReader holds any further prefix'
+
+
+def check_copy_bidi_completion(ck):
+    """copy_bidi: the tunnel is reported finished (Ok) only after BOTH directions have ended, each end recorded once as
+    ClientShutdown / ServerShutdown while the other direction keeps being polled; a failing direction ends the tunnel at once"""
+    fn = ck.find(lambda: ck.db.free('copy_bidi'), 'copy_bidi')
+    if fn is None:
+        return
+    ex = ck.engine(loop_bound=3, call_depth=8)
+    ex.benign_havoc = re.compile(r'.')
+    ex.no_inline = [re.compile(r'copy_half|drain_buffers|Context::|SrcHalf|DstHalf|has_raw_fd|into_owned_fd')]
+    ex.havoc_result_ok = True
+    ex.max_paths = 3000
+    st = State()
+    vn = ex.si.enums['ContextState']
+
+    def set_state(ctx):
+        s = ctx.args[1]
+        d = s.discr if isinstance(s, Agg) else None
+        ctx.st.trace.append(('set_state', vn[d] if isinstance(d, int) and d < len(vn) else str(d)))
+        return ctx.args[0]
+
+    def is_timeout(ctx):
+        return Bool(z3.BoolVal(False))      # idleness is C13's subject: here no direction is idle
+    for rx, f in ((r'Context::set_state$', set_state), (r'ContextStatistics::is_timeout$', is_timeout)):
+        ex.overrides.append((re.compile(rx), f))
+    ctx = Ref(st.alloc(Opaque('tokio::sync::RwLock<context::Context>', 'ctx')), ())
+    params = Ref(st.alloc(Opaque('IoParams', 'params')), ())
+    outs = run_async(ex, st, fn, [ctx, params])
+    n_ok = 0
+    for o, r in outs:
+        if o.status != 'returned' or r is None:
+            continue
+        states = [e[1] for e in o.trace if e[0] == 'set_state']
+        if _is_err_concrete(r):
+            continue
+        ok, _ = _ok_payload(r)
+        n_ok += 1
+        ex.prove(o, 'C04/copy_bidi/finished-only-after-both-directions-ended', z3.Implies(ok, z3.BoolVal(sorted(states) == ['ClientShutdown', 'ServerShutdown'])))
+    if not n_ok:
+        ck.add('C04/copy_bidi/reachability', 'vacuous', 'no path through copy_bidi finishes')
+    ck.absorb(ex, 'copy_bidi (completion)', [o for o, _ in outs])
+    ck.bounds['copy_bidi-completion'] = 'copy_bidi with both copy_half futures arbitrary (each poll: not ready, Ok or Err), <= 3 turns of the select loop'
